@@ -1,8 +1,196 @@
-import Magog.Model.Eval
-import Magog.Model.Time
+import Magog.Lemmas.AlphaBeta
+import Magog.Lemmas.AlphaBetaWitness
+import Magog.Lemmas.KillerIndep
+import Magog.Props.C04Iter
 
-/-! Property C04 — theorems (see DESIGN §5). -/
+/-! Property C04 — pruning is transparent: the score of the model's alpha-beta search is the plain minimax
+    value (`Spec.Minimax`) of the same tree, for every move ordering (`env.sortFn`), killer table, PV hint
+    (`s.cand`, `s.matched`) and PV buffers (`s.rows`, `curLen`) — see DESIGN §5.
+
+    Hypotheses (definitions in `Lemmas/AlphaBeta.lean`):
+    * `Quiet env`      the clock never runs out, no stop request arrives;
+    * `PermSort env`   `env.sortFn` only reorders;
+    * `KillerIndep`    the killer table does not change the *set* of generated moves (proved separately);
+    * `Closed G`       the set `G` of positions is closed under `makeMove` along generated moves;
+    * `LazyOn env G`   if the search evaluates lazily, `LazyGood` (|full − cheap| ≤ `Gen.fullEvalScoreMargin`)
+                       holds on `G`; nothing is required for `env.lazy = false`;
+    * `EvalRange blend G D` (root only) static/terminal scores at depth `1 ≤ d ≤ D` on `G` lie in the mate
+                       window `[Lost + d, −(Lost + d)]` (C05's evaluation bound). -/
 
 namespace Magog.Props.C04
+open Magog Magog.Model Magog.Spec.Minimax Magog.Lemmas.AlphaBeta
+
+/-- (a) Up to clamping into the window, the lazy evaluation is the full evaluation, wherever the lazy
+    assumption holds. The margin enters only through the generated constant (inside `LazyGood`). -/
+theorem lazy_clamp (blend : Blend) (p : Position) (d α β full x : Int)
+    (hα : Gen.MinusInfinityScore ≤ α) (hβ : β ≤ Gen.InfinityScore) (hαβ : α ≤ β)
+    (hfull : evaluate blend p d = .ok full) (hx : lazyEvaluate blend p d α β = .ok x)
+    (hg : LazyGood blend p d) : clamp x α β = clamp full α β :=
+  Lemmas.AlphaBeta.lazy_clamp blend p d α β full x hα hβ hαβ hfull hx hg
+
+/-- non-vacuity: in the pawn ending `capPos` the lazy shortcut is taken (20 instead of the full 25) -/
+example : Gen.MinusInfinityScore ≤ (400 : Int) ∧ (500 : Int) ≤ Gen.InfinityScore ∧ (400 : Int) ≤ 500 ∧
+    evaluate demoBlend capPos 0 = .ok 25 ∧ lazyEvaluate demoBlend capPos 0 400 500 = .ok 20 ∧
+    LazyGood demoBlend capPos 0 ∧ clamp 20 400 500 = clamp 25 400 500 :=
+  ⟨by decide, by decide, by decide, cap_full, cap_lazy, cap_lazyGood,
+   lazy_clamp demoBlend capPos 0 400 500 25 20 (by decide) (by decide) (by decide) cap_full cap_lazy cap_lazyGood⟩
+
+/-- (b) quiescence: fail-hard result = plain negamax quiescence value, up to clamping -/
+theorem quiescence_value (env : Env) (G : Position → Prop) (hq : Quiet env) (hps : PermSort env)
+    (hcl : Closed G) (hlz : LazyOn env G) (fuel : Nat) (p : Position) (idx depth : Nat) (α β : Int)
+    (curLen : Nat) (s : SS) (v : Int) (len : Nat) (s' : SS) (w : Int)
+    (hp : G p) (hαβ : α < β) (hα : Gen.MinusInfinityScore ≤ α) (hβ : β ≤ Gen.InfinityScore)
+    (hs : s.interrupted = false)
+    (h : quiescence env fuel p idx depth α β curLen s = .ok (v, len, s'))
+    (hw : QV env.blend fuel p depth = .ok w) :
+    clamp v α β = clamp w α β ∧ s'.interrupted = false :=
+  let r := quiescence_ok env hq hps G hcl hlz fuel depth p idx α β curLen s v len s' w hp hαβ hα hβ hs h hw
+  ⟨r.1, r.2.1⟩
+
+/-- non-vacuity: a 3-node quiescence search (root, exd5, Kxd5) with the full evaluation on `G = everything` -/
+example : Quiet demoEnv ∧ PermSort demoEnv ∧ Closed (fun _ => True) ∧ LazyOn demoEnv (fun _ => True) ∧
+    demoSS.interrupted = false ∧
+    (∃ len s', quiescence demoEnv 3 capPos 0 0 (-50) 50 0 demoSS = .ok (25, len, s')) ∧
+    QV demoEnv.blend 3 capPos 0 = .ok 25 := by
+  refine ⟨demoEnv_quiet, demoEnv_perm, closed_true, demoEnv_lazyOn _, rfl, ?_, cap_QV⟩
+  obtain ⟨⟨v, len, s'⟩, hr, he⟩ := map_ok (okIs_eq cap_quiescence)
+  simp only [Prod.mk.injEq] at he
+  exact ⟨len, s', by rw [hr, he.1]⟩
+
+/-- (b) alpha-beta: fail-hard result = plain minimax value, up to clamping; for every killer table, PV hint,
+    PV buffer and sort function -/
+theorem alphaBeta_value (env : Env) (G : Position → Prop) (hq : Quiet env) (hps : PermSort env)
+    (hki : KillerIndep) (hcl : Closed G) (hlz : LazyOn env G) (qfuel rem : Nat) (p : Position)
+    (idx depth : Nat) (α β : Int) (curLen : Nat) (s : SS) (v : Int) (len : Nat) (s' : SS) (w : Int)
+    (hp : G p) (hαβ : α < β) (hα : Gen.MinusInfinityScore ≤ α) (hβ : β ≤ Gen.InfinityScore)
+    (hs : s.interrupted = false)
+    (h : alphaBeta env qfuel rem p idx depth α β curLen s = .ok (v, len, s'))
+    (hw : V env.blend qfuel rem p depth = .ok w) :
+    clamp v α β = clamp w α β ∧ s'.interrupted = false :=
+  let r := alphaBeta_ok env hq hps hki G hcl hlz qfuel rem depth p idx α β curLen s v len s' w hp hαβ hα hβ hs h hw
+  ⟨r.1, r.2.1⟩
+
+/-- non-vacuity (modulo `KillerIndep`, which is proved separately): a one-ply search of `kpaPos` that fails
+    high after 3 of its 5 nodes and returns β = 130, while the minimax value is 135 -/
+example : Quiet demoEnv ∧ PermSort demoEnv ∧ Closed (fun _ => True) ∧ LazyOn demoEnv (fun _ => True) ∧
+    demoSS.interrupted = false ∧
+    (∃ len s', alphaBeta demoEnv 1 1 kpaPos 0 0 100 130 0 demoSS = .ok (130, len, s')) ∧
+    V demoEnv.blend 1 1 kpaPos 0 = .ok 135 ∧ clamp 130 100 130 = clamp 135 100 130 := by
+  refine ⟨demoEnv_quiet, demoEnv_perm, closed_true, demoEnv_lazyOn _, rfl, ?_, kpa_V, by decide⟩
+  obtain ⟨⟨v, len, s'⟩, hr, he⟩ := map_ok (okIs_eq kpa_alphaBeta)
+  simp only [Prod.mk.injEq] at he
+  exact ⟨len, s', by rw [hr, he.1]⟩
+
+/-- (c) the root: `startAlphaBeta` returns exactly the root value of the iteration (no clamp: the root window
+    is (−∞, +∞), and the `nextMoveWins` early exit is value-neutral because of `EvalRange`). Also covers a
+    root without legal moves. -/
+theorem root_value (env : Env) (G : Position → Prop) (hq : Quiet env) (hps : PermSort env)
+    (hki : KillerIndep) (hcl : Closed G) (hlz : LazyOn env G) (D : Nat) (her : EvalRange env.blend G D)
+    (qfuel : Nat) (p : Position) (target curLen : Nat) (s : SS) (score : Int) (one : Bool) (len : Nat)
+    (s' : SS) (w : Int) (hp : G p) (hD : 1 + (target - 1) + qfuel ≤ D) (hs : s.interrupted = false)
+    (h : startAlphaBeta env qfuel p target curLen s = .ok (score, one, len, s'))
+    (hw : rootV env.blend qfuel target p = .ok w) :
+    score = w ∧ s'.interrupted = false :=
+  let r := startAlphaBeta_value env G ⟨hq, hps, hki, hcl, hlz⟩ D her qfuel p hp target hD curLen s score one
+    len s' w hs h hw
+  ⟨r.1, r.2.1⟩
+
+/-- for `target ≥ 1` the root value is `V … target p 0` -/
+theorem rootV_is_V (blend : Blend) (qfuel target : Nat) (p : Position) (h : 1 ≤ target) :
+    rootV blend qfuel target p = V blend qfuel target p 0 := rootV_eq blend qfuel target p h
+
+/-- non-vacuity (modulo `KillerIndep`): a mated root (fool's mate) with the lazy evaluation and a reversing
+    sort; `G` is the one-point set. (A root with successors needs the evaluation bound of C05 on a closed
+    set of positions, which cannot be established by evaluation.) -/
+example (hki : KillerIndep) : Quiet demoEnvLazy ∧ PermSort demoEnvLazy ∧ Closed FM ∧ LazyOn demoEnvLazy FM ∧
+    EvalRange demoEnvLazy.blend FM 100 ∧ FM foolsMate ∧ 1 + (2 - 1) + 3 ≤ 100 ∧ demoSS.interrupted = false ∧
+    (∃ len s', startAlphaBeta demoEnvLazy 3 foolsMate 2 0 demoSS = .ok (Gen.LostScore, false, len, s')) ∧
+    rootV demoEnvLazy.blend 3 2 foolsMate = .ok Gen.LostScore := by
+  refine ⟨demoEnvLazy_quiet, demoEnvLazy_perm, fm_closed hki, fm_lazyOn, fm_evalRange, rfl, by decide, rfl, ?_,
+    fm_rootV⟩
+  obtain ⟨⟨v, one, len, s'⟩, hr, he⟩ := map_ok (okIs_eq fm_start)
+  simp only [Prod.mk.injEq] at he
+  exact ⟨len, s', by rw [hr, he.1, he.2]⟩
+
+/-- (d) every `info depth d score sc` line printed by iterative deepening reports the root value of
+    iteration `d`, and the final `info score best depth done` line (printInfo, just before `bestmove`)
+    reports the root value of iteration `done`; a root without legal moves prints the root value as
+    `info depth 0 score …`. -/
+theorem C04_scores (env : Env) (G : Position → Prop) (hq : Quiet env) (hps : PermSort env)
+    (hki : KillerIndep) (hcl : Closed G) (hlz : LazyOn env G) (D : Nat) (her : EvalRange env.blend G D)
+    (qfuel : Nat) (p : Position) (maxDepth : Nat) (killers : Killers) (rows : Array (Array Move))
+    (len0 : Nat) (s : SS) (hp : G p) (hD1 : 1 + qfuel ≤ D) (hD : maxDepth + qfuel ≤ D)
+    (h : iterDeep env qfuel p maxDepth killers rows len0 = .ok s) :
+    (∀ d sc nodes pv, Event.infoDepth d sc nodes pv ∈ s.out →
+        ∀ w, rootV env.blend qfuel d p = .ok w → sc = w) ∧
+    ((∃ m best done nodes pv rest, s.out = .bestmove m :: .infoPv best done nodes pv :: rest ∧
+        ∀ w, rootV env.blend qfuel done p = .ok w → best = w) ∨
+     (∃ sc rest, s.out = .bestmoveNone :: .infoTerminal sc :: rest ∧
+        ∀ w, rootV env.blend qfuel 1 p = .ok w → sc = w)) := by
+  obtain ⟨hg, hfin⟩ := iterDeep_ok env G ⟨hq, hps, hki, hcl, hlz⟩ D her qfuel p hp maxDepth hD1 hD killers rows
+    len0 s h
+  refine ⟨?_, hfin⟩
+  intro d sc nodes pv hmem
+  exact hg _ (List.mem_filter.mpr ⟨hmem, rfl⟩)
+
+/-- non-vacuity (modulo `KillerIndep`): iterative deepening from the mated root -/
+example (hki : KillerIndep) : Quiet demoEnvLazy ∧ PermSort demoEnvLazy ∧ Closed FM ∧ LazyOn demoEnvLazy FM ∧
+    EvalRange demoEnvLazy.blend FM 100 ∧ FM foolsMate ∧ 1 + 3 ≤ 100 ∧ 5 + 3 ≤ 100 ∧
+    (∃ s, iterDeep demoEnvLazy 3 foolsMate 5 Killers.empty (newRows 8) 0 = .ok s ∧
+      s.out = [.bestmoveNone, .infoTerminal Gen.LostScore]) ∧
+    rootV demoEnvLazy.blend 3 1 foolsMate = .ok Gen.LostScore := by
+  refine ⟨demoEnvLazy_quiet, demoEnvLazy_perm, fm_closed hki, fm_lazyOn, fm_evalRange, rfl, by decide, by decide,
+    ?_, fm_rootV1⟩
+  obtain ⟨s, hr, he⟩ := map_ok (okIs_eq fm_iterDeep)
+  exact ⟨s, hr, he⟩
+
+
+/-! ### `KillerIndep` discharged, and the iteration clause
+
+`KillerIndep` is a theorem (`Lemmas/KillerIndep.lean`: the killer table changes rankings only, never which moves are
+generated), so the value theorems hold without that hypothesis. -/
+
+theorem killerIndep : KillerIndep :=
+  fun kt kt' p ms ms' h h' => Magog.Lemmas.KillerIndep.killerIndep kt kt' p ms ms' h h'
+
+/-- `alphaBeta_value` with the killer hypothesis discharged: for every killer table, move ordering, PV hint and PV
+    buffer the returned score is, up to clamping into the window, the plain minimax value `V`. -/
+theorem alphaBeta_transparent (env : Env) (G : Position → Prop) (hq : Quiet env) (hps : PermSort env)
+    (hcl : Closed G) (hlz : LazyOn env G) (qfuel rem : Nat) (p : Position)
+    (idx depth : Nat) (α β : Int) (curLen : Nat) (s : SS) (v : Int) (len : Nat) (s' : SS) (w : Int)
+    (hp : G p) (hαβ : α < β) (hα : Gen.MinusInfinityScore ≤ α) (hβ : β ≤ Gen.InfinityScore)
+    (hs : s.interrupted = false)
+    (h : alphaBeta env qfuel rem p idx depth α β curLen s = .ok (v, len, s'))
+    (hw : V env.blend qfuel rem p depth = .ok w) :
+    clamp v α β = clamp w α β ∧ s'.interrupted = false :=
+  alphaBeta_value env G hq hps killerIndep hcl hlz qfuel rem p idx depth α β curLen s v len s' w hp hαβ hα hβ hs h hw
+
+/-- `C04_scores` with the killer hypothesis discharged: every score the iterative deepening reports for a completed
+    iteration `d` is the minimax value `rootV … d p` of the depth-`d` tree. -/
+theorem C04_reported_scores (env : Env) (G : Position → Prop) (hq : Quiet env) (hps : PermSort env)
+    (hcl : Closed G) (hlz : LazyOn env G) (D : Nat) (her : EvalRange env.blend G D)
+    (qfuel : Nat) (p : Position) (maxDepth : Nat) (killers : Killers) (rows : Array (Array Move))
+    (len0 : Nat) (s : SS) (hp : G p) (hD1 : 1 + qfuel ≤ D) (hD : maxDepth + qfuel ≤ D)
+    (h : iterDeep env qfuel p maxDepth killers rows len0 = .ok s) :
+    (∀ d sc nodes pv, Event.infoDepth d sc nodes pv ∈ s.out →
+        ∀ w, rootV env.blend qfuel d p = .ok w → sc = w) ∧
+    ((∃ m best done nodes pv rest, s.out = .bestmove m :: .infoPv best done nodes pv :: rest ∧
+        ∀ w, rootV env.blend qfuel done p = .ok w → best = w) ∨
+     (∃ sc rest, s.out = .bestmoveNone :: .infoTerminal sc :: rest ∧
+        ∀ w, rootV env.blend qfuel 1 p = .ok w → sc = w)) :=
+  C04_scores env G hq hps killerIndep hcl hlz D her qfuel p maxDepth killers rows len0 s hp hD1 hD h
+
+/-- the iteration clause of C04 (proved in `Props/C04Iter.lean`): under a quiet oracle `go depth d` completes exactly
+    the iterations `1 … d`, ending earlier only on a single legal root move or a mate no longer than the iteration -/
+theorem C04_iterations {env : Env} {qfuel : Nat} {p : Position} {maxDepth : Nat} {killers : Killers}
+    {rows : Array (Array Move)} {len0 : Nat} {s : SS} (hq : env.Quiet)
+    (h : iterDeep env qfuel p maxDepth killers rows len0 = .ok s) :
+    (∃ score rest, s.out = .bestmoveNone :: .infoTerminal score :: rest ∧ depthsOf s.out = []) ∨
+    (∃ m best done nodes pv rest, s.out = .bestmove m :: .infoPv best done nodes pv :: rest ∧
+       (depthsOf s.out).reverse = List.range' 2 (done - 1) ∧ 1 ≤ done ∧ done ≤ max 1 maxDepth ∧
+       (done < maxDepth →
+          (2 ≤ done ∧ pliesToMate best = done) ∨
+          ∃ len sb len' sa, startAlphaBeta env qfuel p done len sb = .ok (best, true, len', sa))) :=
+  C04Iter.C04_iterations hq h
 
 end Magog.Props.C04
